@@ -54,6 +54,8 @@ def _worker(cid, seed, tier, wid, nworkers, max_runs, deadline, conn,
            'sim_s': 0.0, 'steps': 0, 'violations': [], 'harness': [],
            'policies': {}, 'samples': [], 'sigcount': {}}
     try:
+        import warnings
+        warnings.simplefilter('ignore')
         chk = load_check(cid)
         if hasattr(chk, 'worker_init'):
             chk.worker_init(tier)
